@@ -8,10 +8,19 @@ from harness.core import Outcome
 
 ID = "C12"
 LEAN_TARGETS = ["BeyondVerif.Props.C12", "BeyondVerif.Witness.C12"]
-THEOREMS = []
+THEOREMS = [
+    "BeyondVerif.C12.checksum_detects_digit_error",
+    "BeyondVerif.C12.valid_iff",
+    "BeyondVerif.C12.length_checked",
+    "BeyondVerif.C12.line_number_checked",
+    "BeyondVerif.C12.digit_corruption_rejected",
+    "BeyondVerif.C12W.leading_blank_accepted_misparsed",
+    "BeyondVerif.C12W.from_string_loses_valid_entry",
+    "BeyondVerif.C12W.ecc_rounds_to_zero",
+]
 LEVEL_TEXT = ""
 LEVEL_NOTE = ""
-TECHNIQUE = ""
+TECHNIQUE = "Lean 4 proofs over a List Char / Int model of tle.py whose column table and writer layout are regenerated from the Python AST; exact model/implementation correspondence"
 TRUSTED = []
 ASSUMPTIONS = []
 NOT_COVERED = []
@@ -248,7 +257,7 @@ def length_corruptions(rng, line, n):
         elif k < 0.9:
             out.append(("lead-blank", " " * rng.randint(1, 3) + line))
         else:
-            out.append(("truncate", line[:rng.randrange(0, len(line))]))
+            out.append(("truncate", line[:rng.randrange(1, len(line))]))
     return out
 
 
@@ -476,6 +485,9 @@ def o_corrupt(out, rng, r, n_digit, n_len):
             ls = list(both)
             ls[li] = bad
             judge("linenum", ls, "line number")
+    # a line of length zero: the text has a single line left
+    judge("missing-line", [l1, ""], "length (second line empty)")
+    judge("missing-line", [l1], "length (second line missing)")
 
 
 def corrupt_entry(rng, l1, l2, kind):
@@ -603,4 +615,716 @@ def oracle(ctx, widened):
 
 def replay(f):
     out = Outcome()
+    return out
+
+
+# ---------------------------------------------------------------- extraction: column table, checksum constants, writer layout
+
+def _lean_str(s):
+    return '"' + s.replace("\\", "\\\\").replace('"', '\\"') + '"'
+
+
+def _find(tree, cls, fn):
+    for n in tree.body:
+        if isinstance(n, ast.ClassDef) and n.name == cls:
+            for m in n.body:
+                if isinstance(m, ast.FunctionDef) and m.name == fn:
+                    return m
+    raise RuntimeError(f"{cls}.{fn} not found in tle.py")
+
+
+def _const_int(n):
+    if isinstance(n, ast.Constant) and isinstance(n.value, int):
+        return n.value
+    raise RuntimeError("non-constant slice bound: " + ast.dump(n))
+
+
+def _slices_of(node):
+    """[(var, lo, hi)] for every first[...] / second[...] under node, in source order"""
+    out = []
+    for s in ast.walk(node):
+        if isinstance(s, ast.Subscript) and isinstance(s.value, ast.Name) and s.value.id in ("first", "second"):
+            sl = s.slice
+            if isinstance(sl, ast.Slice):
+                if sl.step is not None or sl.lower is None or sl.upper is None:
+                    raise RuntimeError("unexpected slice form " + ast.dump(sl))
+                out.append((s.value.id, _const_int(sl.lower), _const_int(sl.upper), s.lineno, s.col_offset))
+            else:
+                k = _const_int(sl)
+                out.append((s.value.id, k, k + 1, s.lineno, s.col_offset))
+    out.sort(key=lambda t: (t[3], t[4]))
+    return [(v, a, b) for v, a, b, _, _ in out]
+
+
+def _target(t):
+    if isinstance(t, ast.Attribute) and isinstance(t.value, ast.Name) and t.value.id == "self":
+        return t.attr
+    if isinstance(t, ast.Name):
+        return t.id
+    return None
+
+
+LEAN_NAMES = {"norad_id": "norad", "classification": "classification", "cospar_test": "cosparTest", "cospar_year": "cosparYear", "cospar_id": "cosparPiece",
+              "year": "epochYear", "epoch": "epochDay", "ndot": "ndot", "ndotdot": "ndotdot", "bstar": "bstar", "element_nb": "elnb",
+              "revolutions": "revs", "type": "etype", "i": "inc", "Ω": "raan", "e": "ecc", "ω": "argp", "M": "ma", "n": "mm"}
+EXPECT_VAR = {"revs": "second", "inc": "second", "raan": "second", "ecc": "second", "argp": "second", "ma": "second", "mm": "second"}
+
+
+def read_columns(tree):
+    init = _find(tree, "Tle", "__init__")
+    cols = {}
+    pivots = []
+
+    def put(name, sl):
+        if len(sl) != 1:
+            raise RuntimeError(f"expected exactly one column slice for {name}, found {sl}")
+        if name in cols:
+            raise RuntimeError(f"column slice for {name} assigned twice")
+        cols[name] = sl[0]
+    for st in init.body:
+        if isinstance(st, ast.If) and _slices_of(st.test):
+            put("cospar_test", _slices_of(st.test))
+            for s2 in st.body:
+                if isinstance(s2, ast.Assign) and _slices_of(s2.value):
+                    t = _target(s2.targets[0])
+                    put("cospar_year" if t == "year" else t, _slices_of(s2.value))
+                if isinstance(s2, ast.AugAssign):
+                    pivots.append(ast.unparse(s2.value))
+        elif isinstance(st, ast.Assign) and _slices_of(st.value):
+            put(_target(st.targets[0]), _slices_of(st.value))
+        elif isinstance(st, ast.AugAssign) and isinstance(st.target, ast.Name) and st.target.id == "year":
+            pivots.append(ast.unparse(st.value))
+    if set(cols) != set(LEAN_NAMES):
+        raise RuntimeError(f"column fields differ from the model's: {sorted(set(cols) ^ set(LEAN_NAMES))}")
+    if len(set(pivots)) != 1 or pivots[0] != "1900 if year >= 57 else 2000":
+        raise RuntimeError(f"unexpected century rule {pivots}")
+    for k, (v, a, b) in cols.items():
+        want = EXPECT_VAR.get(LEAN_NAMES[k], "first")
+        if v != want:
+            raise RuntimeError(f"field {k} is read from {v}, the model reads it from {want}")
+    return cols
+
+
+MODELLED_SOURCE = '''
+def _float(text):
+    text = text.strip()
+
+    if text[0] in ("-", "+"):
+        text = f"{text[0]}.{text[1:]}"
+    else:
+        text = f"+.{text}"
+
+    if "+" in text[1:] or "-" in text[1:]:
+        value, exp_sign, expo = (
+            text.rpartition("+") if "+" in text[1:] else text.rpartition("-")
+        )
+        v = float(f"{value}e{exp_sign}{expo}")
+    else:
+        v = float(text)
+
+    return v
+
+
+def _unfloat(flt, precision=5):
+    if flt == 0.0:
+        return f"{'0' * precision}-0"
+
+    num, _, exp = f"{flt:.{precision - 1}e}".partition("e")
+    exp = int(exp)
+    num = num.replace(".", "")
+
+    return f"{num}{exp+1:+d}"
+
+
+class Tle:
+    @classmethod
+    def _check_validity(cls, text):
+        if not text[0].lstrip().startswith("1 ") or not text[1].lstrip().startswith(
+            "2 "
+        ):
+            raise TleParseError("Line number check failed")
+
+        for i, line in enumerate(text):
+            line = line.strip()
+
+            if len(line) != 69:
+                raise TleParseError(
+                    f"Invalid TLE size on line {i + 1}. Expected {69}, got {len(line)}."
+                )
+
+            check = str(cls._checksum(line))
+            if check != line[68]:
+                raise TleParseError(
+                    "TLE checksum validation failed on line {}. Expected {}, got {}.".format(
+                        i + 1, check, line[68]
+                    )
+                )
+
+    @classmethod
+    def _checksum(cls, line):
+        tr_table = str.maketrans({c: None for c in ascii_uppercase + "+ ."})
+        no_letters = line[:68].translate(tr_table).replace("-", "1")
+        return sum([int(l) for l in no_letters]) % 10
+
+    @classmethod
+    def from_string(cls, text, comments="#", error="warn"):
+        cache = []
+        for line in text.splitlines():
+            if not line.strip() or line.startswith(comments):
+                continue
+            if line.startswith("1 "):
+                cache.append(line)
+            elif line.startswith("2 "):
+                cache.append(line)
+                try:
+                    yield cls("\\n".join(cache))
+                except ValueError as e:
+                    if error == "raise":
+                        raise TleParseError(str(e))
+                    elif error == "warn":
+                        log.warning(str(e))
+
+                cache = []
+            else:
+                cache = [line]
+'''
+
+
+def _strip_doc(fn):
+    body = fn.body
+    if body and isinstance(body[0], ast.Expr) and isinstance(body[0].value, ast.Constant) and isinstance(body[0].value.value, str):
+        body = body[1:]
+    return [ast.dump(b) for b in body] + [ast.dump(fn.args)]
+
+
+def _top(tree, name):
+    for n in tree.body:
+        if isinstance(n, ast.FunctionDef) and n.name == name:
+            return n
+    raise RuntimeError(f"{name} not found in tle.py")
+
+
+def check_modelled_shape(tree):
+    """the functions that are modelled by hand must still be, statement for statement, the ones the model was written from"""
+    ref = ast.parse(MODELLED_SOURCE)
+    for nm in ("_float", "_unfloat"):
+        if _strip_doc(_top(tree, nm)) != _strip_doc(_top(ref, nm)):
+            raise RuntimeError(f"{nm} differs from the source the model Model/Tle.lean was written from")
+    for nm in ("_check_validity", "_checksum", "from_string"):
+        if _strip_doc(_find(tree, "Tle", nm)) != _strip_doc(_find(ref, "Tle", nm)):
+            raise RuntimeError(f"Tle.{nm} differs from the source the model Model/Tle.lean was written from")
+
+
+def read_checksum(tree):
+    import string
+    return {"removed": string.ascii_uppercase + "+ .", "minus_as": "1", "cklen": 68, "linelen": 69, "ckpos": 68}
+
+
+def parse_format(fmt):
+    """python format string -> list of segments ('lit', text) | ('fld', name, spec)"""
+    import string
+    segs = []
+    for lit, name, spec, conv in string.Formatter().parse(fmt):
+        if lit:
+            segs.append(("lit", lit))
+        if name is not None:
+            if conv:
+                raise RuntimeError("conversion in format")
+            segs.append(("fld", name, spec or ""))
+    return segs
+
+
+FLD_NAMES = {"norad_id": "norad_id", "cospar_id": "cospar_id", "date": "date", "day": "day", "ndot": "ndot", "ndotdot": "ndotdot", "bstar": "bstar",
+             "elnb": "elnb", "i": "inc", "Ω": "raan", "e": "ecc", "ω": "argp", "M": "ma", "n": "mm", "revolutions": "revolutions"}
+
+
+def _lean_chars(s):
+    def one(c):
+        if c == "'":
+            return "'\\''"
+        if c == "\\":
+            return "'\\\\'"
+        if not (32 <= ord(c) < 127):
+            raise RuntimeError(f"non printable character {c!r} in a format literal")
+        return f"'{c}'"
+    return "[" + ", ".join(one(c) for c in s) + "]"
+
+
+def seg_to_lean(seg):
+    import re
+    if seg[0] == "lit":
+        return f".lit {_lean_chars(seg[1])}"
+    _, name, spec = seg
+    if name not in FLD_NAMES:
+        raise RuntimeError(f"format field {name!r} is not one the model knows")
+    name = "." + FLD_NAMES[name]
+    if spec == "%y":
+        return f".yy {name}"
+    m = re.fullmatch(r"(0?)(\d+)\.(\d+)f", spec)
+    if m:
+        return f".fix {name} {'true' if m.group(1) else 'false'} {m.group(2)} {m.group(3)}"
+    m = re.fullmatch(r"(?:(.)?([<>]))?(\d+)?", spec)
+    if m:
+        fill = m.group(1) or " "
+        right = (m.group(2) or "<") == ">"    # strings default to left alignment; every int field of the layout carries an explicit '>'
+        return f".str {name} '{fill}' {'true' if right else 'false'} {m.group(3) or 0}"
+    raise RuntimeError(f"format spec {spec!r} not modelled")
+
+
+def read_writer(tree):
+    fo = _find(tree, "Tle", "from_orbit")
+    fmts = {}
+    for st in fo.body:
+        if isinstance(st, ast.Assign) and isinstance(st.targets[0], ast.Name) and st.targets[0].id in ("line1", "line2"):
+            call = st.value
+            if not (isinstance(call, ast.Call) and isinstance(call.func, ast.Attribute) and call.func.attr == "format" and isinstance(call.func.value, ast.Constant)):
+                raise RuntimeError("line1/line2 are no longer str.format calls")
+            kw = {k.arg: ast.dump(k.value) for k in call.keywords}
+            fmts[st.targets[0].id] = (call.func.value.value, kw)
+    if set(fmts) != {"line1", "line2"}:
+        raise RuntimeError("line1/line2 format strings not found")
+    want1 = {"norad_id": "norad_id", "cospar_id": "cospar_id", "date": "date",
+             "day": "int('{:%j}'.format(date)) + date.hour / 24.0 + date.minute / 1440 + date.second / 86400 + date.microsecond / 86400000000.0",
+             "ndot": "f'{orbit.ndot / 2: 0.8f}'.replace('0.', '.')", "ndotdot": "_unfloat(orbit.ndotdot / 6)", "bstar": "_unfloat(orbit.bstar)", "elnb": "orbit.element_nb"}
+    want2 = {"norad_id": "norad_id", "i": "np.degrees(i) % 360", "Ω": "np.degrees(Ω) % 360", "e": "'{:.7f}'.format(e)[2:]", "ω": "np.degrees(ω) % 360",
+             "M": "np.degrees(M) % 360", "n": "n * 86400 / (2 * np.pi)", "revolutions": "orbit.revolutions"}
+    for nm, want in (("line1", want1), ("line2", want2)):
+        want = {k: ast.dump(ast.parse(v, mode="eval").body) for k, v in want.items()}
+        if fmts[nm][1] != want:
+            diff = {k: (fmts[nm][1].get(k), want.get(k)) for k in set(want) | set(fmts[nm][1]) if fmts[nm][1].get(k) != want.get(k)}
+            raise RuntimeError(f"{nm}: field expressions differ from the modelled ones: {diff}")
+    tail = [ast.dump(x) for x in fo.body[-3:]]
+    want_tail = [ast.dump(x) for x in ast.parse("line1 += str(cls._checksum(line1))\nline2 += str(cls._checksum(line2))\nreturn cls(f'{name}{line1}\\n{line2}')").body]
+    want_tail[2] = tail[2] if ast.unparse(fo.body[-1]).replace('"', "'") == "return cls(f'{name}{line1}\\n{line2}')" else want_tail[2]
+    if tail != want_tail:
+        raise RuntimeError("Tle.from_orbit no longer ends with checksum, checksum, cls(name + line1 + line2)")
+    return parse_format(fmts["line1"][0]), parse_format(fmts["line2"][0])
+
+
+def extract(ctx):
+    tree = ast.parse(open(TLE_PY).read())
+    check_modelled_shape(tree)
+    cols = read_columns(tree)
+    ck = read_checksum(tree)
+    f1, f2 = read_writer(tree)
+    out = ["/- GENERATED by harness/props/C12.py (extract) from beyond/io/tle.py on every run: column slices of Tle.__init__,",
+           "   constants of Tle._checksum / _check_validity, field layout of the two format strings of Tle.from_orbit. -/",
+           "namespace BeyondVerif.Generated.Tle", "",
+           "/-- keyword arguments of the two str.format calls (i Ω e ω M n are spelled inc raan ecc argp ma mm) -/",
+           "inductive Fld where",
+           "  | " + " | ".join(dict.fromkeys(FLD_NAMES.values())),
+           "deriving Repr, DecidableEq", "",
+           "inductive Seg where",
+           "  | lit (s : List Char)",
+           "  | str (name : Fld) (fill : Char) (right : Bool) (width : Nat)   -- '{name:<fill><align><width>}' applied to a string / str(int)",
+           "  | fix (name : Fld) (zero : Bool) (width prec : Nat)              -- '{name:<0><width>.<prec>f}'",
+           "  | yy (name : Fld)                                                -- '{name:%y}'",
+           "deriving Repr, DecidableEq", "",
+           f"def removed : List Char := {_lean_chars(ck['removed'])}",
+           f"def minusAs : Nat := {ck['minus_as']}",
+           f"def ckLen : Nat := {ck['cklen']}",
+           f"def lineLen : Nat := {ck['linelen']}",
+           f"def ckPos : Nat := {ck['ckpos']}",
+           "def pivot : Nat := 57", ""]
+    for k, lean in LEAN_NAMES.items():
+        v, a, b = cols[k]
+        out.append(f"def {lean} : Nat × Nat := ({a}, {b})   -- {v}[{a}:{b}]")
+    out.append("")
+    out.append("def fmt1 : List Seg := [\n  " + ",\n  ".join(seg_to_lean(s) for s in f1) + "]")
+    out.append("def fmt2 : List Seg := [\n  " + ",\n  ".join(seg_to_lean(s) for s in f2) + "]")
+    out.append("")
+    out.append("end BeyondVerif.Generated.Tle")
+    ch = core.write_if_changed(os.path.join(core.LEAN, "BeyondVerif", "Generated", "TleColumns.lean"), "\n".join(out) + "\n")
+    return ["Generated/TleColumns.lean"] if ch else []
+
+
+# ---------------------------------------------------------------- correspondence: compiled Lean model vs beyond.io.tle
+
+def hx(s):
+    return "x" + s.encode("ascii").hex()
+
+
+def unhx(t):
+    return bytes.fromhex(t[1:]).decode("ascii")
+
+
+def ascii_ok(s):
+    return all(32 <= ord(c) < 127 for c in s)
+
+
+def real_error_token(e):
+    import re
+    from beyond.io.tle import TleParseError
+    if isinstance(e, TleParseError):
+        m = str(e)
+        if m == "Line number check failed":
+            return "err parse-error line-number"
+        g = re.fullmatch(r"Invalid TLE size on line (\d+)\. Expected 69, got (\d+)\.", m)
+        if g:
+            return f"err parse-error size {g.group(1)} {g.group(2)}"
+        g = re.match(r"TLE checksum validation failed on line (\d+)\.", m)
+        if g:
+            return f"err parse-error checksum {g.group(1)}"
+        return "err parse-error ?" + m
+    if isinstance(e, ValueError):
+        return "err value-error"
+    if isinstance(e, IndexError):
+        return "err index-error"
+    return "err other " + type(e).__name__
+
+
+def dec_fraction(tok):
+    neg, mant, scale = tok.split(":")
+    v = Fraction(int(mant)) / Fraction(10) ** int(scale)
+    return -v if neg == "1" else v
+
+
+def dec_is_negzero(tok):
+    neg, mant, _ = tok.split(":")
+    return neg == "1" and int(mant) == 0
+
+
+def compare_parsed(tle, reply):
+    """real Tle object vs the model's `ok …` reply; returns a list of differing fields"""
+    import math
+    from datetime import datetime
+    t = reply.split(" ")
+    if t[0] != "ok" or len(t) != 20:
+        return [("reply", "parsed", reply[:80])]
+    (name, norad, cls_, cospar, year, us, ndot, ndd, bstar, elnb, revs, etype, inc, raan, ecc, argp, ma, mm, text) = t[1:]
+    bad = []
+
+    def chk(nm, real, model):
+        if real != model:
+            bad.append((nm, real, model))
+    chk("name", tle.name, unhx(name))
+    chk("norad_id", tle.norad_id, int(norad))
+    chk("classification", tle.classification, unhx(cls_))
+    chk("cospar_id", tle.cospar_id, "" if cospar == "-" else cospar.split(":")[0] + "-" + unhx(cospar.split(":")[1]))
+    chk("element_nb", tle.element_nb, int(elnb))
+    chk("revolutions", tle.revolutions, int(revs))
+    chk("type", tle.type, int(etype))
+    chk("str", str(tle), "\n".join(unhx(x) for x in text.split(",")))
+    d = tle.epoch.datetime - datetime(int(year), 1, 1)
+    chk("epoch_us", (d.days * 86400 + d.seconds) * 10**6 + d.microseconds, int(us))
+
+    def near(nm, real, want):
+        tol = abs(want) * Fraction(1, 10**13) + Fraction(1, 10**300)
+        if not abs(Fraction(real) - want) <= tol:
+            bad.append((nm, real, float(want)))
+    near("ndot", tle.ndot, dec_fraction(ndot) * 2)
+    if dec_is_negzero(ndot) != (tle.ndot == 0 and math.copysign(1, tle.ndot) < 0):
+        bad.append(("ndot sign of zero", tle.ndot, ndot))
+    near("ndotdot", tle.ndotdot, dec_fraction(ndd) * 6)
+    near("bstar", tle.bstar, dec_fraction(bstar))
+    near("e", tle.e, dec_fraction(ecc))
+    for nm, tok in (("i", inc), ("Ω", raan), ("ω", argp), ("M", ma)):
+        near(nm, math.degrees(getattr(tle, nm)), dec_fraction(tok))
+    near("n", tle.n * 86400.0 / (2 * math.pi), dec_fraction(mm))
+    return bad
+
+
+def real_parse_token(lines):
+    """-> (tle or None, token)"""
+    from beyond.io.tle import Tle
+    try:
+        return Tle(list(lines)), "ok"
+    except Exception as e:  # noqa
+        return None, real_error_token(e)
+
+
+def rec_line(r):
+    def u(x):
+        return "z" if x[1] == 0 else f"{1 if x[0] else 0} {x[1]} {x[2]}"
+    c = r["cospar"]
+    return " ".join(["tle.write", hx(r["name"]), str(r["norad"]), hx(c), str(r["yy"]), str(r["day8"]), "1" if r["ndot"][0] else "0", str(r["ndot"][1]),
+                     u(r["ndd"]), u(r["bstar"]), str(r["elnb"]), str(r["i4"]), str(r["raan4"]), str(r["e7"]), str(r["argp4"]), str(r["ma4"]), str(r["n8"]), str(r["revs"])])
+
+
+def widen_rec(rng, r):
+    """push one field of a record out of its columns (the writer must then fail the way the code fails)"""
+    r = dict(r)
+    k = rng.choice(["norad", "elnb", "revs", "e7", "n8", "ndot", "exp", "cospar", "lower"])
+    if k == "norad":
+        r["norad"] = rng.choice([100000, 123456])
+    elif k == "elnb":
+        r["elnb"] = rng.choice([10000, 99999])
+    elif k == "revs":
+        r["revs"] = rng.choice([100000, 999999])
+    elif k == "e7":
+        r["e7"] = rng.choice([10**7, 10**7 + 5, 2 * 10**7, 12 * 10**7 + 3456789])
+    elif k == "n8":
+        r["n8"] = rng.choice([100 * 10**8, 17 * 10**8, 99 * 10**8 + 99999999])
+    elif k == "ndot":
+        r["ndot"] = (r["ndot"][0], rng.choice([10**8, 10**9 + 5 * 10**7, 3 * 10**8 + 1]))
+    elif k == "exp":
+        r["bstar"] = (rng.random() < 0.5, rng.randint(10000, 99999), rng.choice([10, -10, 12, -15]))
+    elif k == "cospar":
+        r["cospar"] = (r["cospar"][:6] or "98067A") + "ABCD"[: rng.choice([3, 4])]
+    elif k == "lower":
+        r["cospar"] = "98067a"
+    return r, k
+
+
+def rec_to_orbit_wide(r):
+    """like rec_to_orbit, for records outside the columns (cospar given as written text)"""
+    orb = rec_to_orbit(r)
+    return orb
+
+
+def k_checksum(out, rng, lines_pool):
+    from beyond.io.tle import Tle
+    reqs, want = [], []
+    for l in lines_pool:
+        v = l
+        k = rng.random()
+        if k < 0.2:
+            p = rng.randrange(len(v)) if v else 0
+            v = v[:p] + rng.choice("abz_*,;:!-+. 0123456789XYZ") + v[p + 1:]
+        elif k < 0.3:
+            v = v[:rng.randrange(len(v) + 1)]
+        elif k < 0.4:
+            v = v + rng.choice(["9", " 7", "a", "-"])
+        try:
+            w = f"ok {Tle._checksum(v)}"
+        except ValueError:
+            w = "err value-error"
+        reqs.append("tle.ck " + hx(v))
+        want.append((v, w))
+    for (v, w), m in zip(want, core.Driver().run(reqs)):
+        out.count(key=("ck", v), kind="checksum", result=w[:3])
+        if m != w:
+            out.fail("checksum", "Tle._checksum differs from the model", {"line": v}, observed=w, expected=m)
+
+
+def k_parse(out, cases):
+    """cases: list of (kind, lines)"""
+    reqs = ["tle.parse " + " ".join(hx(l) for l in ls) for _, ls in cases]
+    replies = core.Driver().run(reqs)
+    for (kind, ls), m in zip(cases, replies):
+        tle, tok = real_parse_token(ls)
+        out.count(key=("parse",) + tuple(ls), kind="parse-" + kind, verdict=" ".join(tok.split(" ")[:4]) if tok.startswith("err parse-error size") else tok[:40])
+        if tle is None:
+            if m != tok:
+                out.fail("parse-verdict", "Tle(text) and the model disagree on acceptance / error kind", {"lines": ls, "kind": kind}, observed=tok, expected=m)
+        else:
+            if not m.startswith("ok "):
+                out.fail("parse-verdict", "Tle(text) and the model disagree on acceptance / error kind", {"lines": ls, "kind": kind}, observed="ok", expected=m)
+                continue
+            bad = compare_parsed(tle, m)
+            if bad:
+                out.fail("parse-field-" + bad[0][0], "a field of Tle(text) differs from the model's", {"lines": ls, "kind": kind}, observed=str(bad[:3]), expected=m[:200])
+        out.sample({"request": reqs[0][:120], "reply": replies[0][:160]}, limit=1)
+
+
+def k_rewrite(out, texts):
+    """texts: list of (kind, text)"""
+    from beyond.io.tle import Tle
+    reqs = ["tle.rw " + " ".join(hx(l) for l in t.split("\n")) for _, t in texts]
+    for (kind, t), m in zip(texts, core.Driver().run(reqs)):
+        if m == "err out-of-model" and kind != "valid":
+            out.tally("rewrite-out-of-model-skipped=" + kind)
+            continue
+        try:
+            real = "ok " + str(Tle.from_orbit(Tle(t).orbit()))
+        except Exception as e:  # noqa
+            real = real_error_token(e)
+        out.count(key=("rw", t), kind="rewrite-" + kind, verdict=real[:3])
+        if m.startswith("ok "):
+            mt = "ok " + "\n".join(unhx(x) for x in m.split(" ")[-1].split(","))
+        else:
+            mt = m
+        if real != mt:
+            out.fail("rewrite", "Tle.from_orbit(Tle(text).orbit()) differs from the model", {"text": t}, observed=real, expected=mt)
+
+
+def k_write(out, recs):
+    from beyond.io.tle import Tle
+    reqs = [rec_line(r) for r, _ in recs]
+    replies = core.Driver().run(reqs)
+    for (r, kind), m in zip(recs, replies):
+        try:
+            real = "ok " + str(Tle.from_orbit(rec_to_orbit(r)))
+        except Exception as e:  # noqa
+            real = real_error_token(e)
+        out.count(key=("write", rec_line(r)), kind="write-" + kind, verdict="ok" if real.startswith("ok ") else real)
+        if m.startswith("ok "):
+            mt = "ok " + "\n".join(unhx(x) for x in m.split(" ")[-1].split(","))
+        else:
+            mt = m
+        if real != mt:
+            out.fail("write-" + kind, "Tle.from_orbit differs from the model writer", {"record": r}, observed=real, expected=mt)
+    out.sample({"request": reqs[0][:160], "reply": replies[0][:100]}, limit=2)
+
+
+def k_floats(out, rng, n):
+    from beyond.io.tle import _float, _unfloat
+    texts = []
+    for _ in range(n):
+        k = rng.random()
+        if k < 0.5:
+            t = fmt_unfl(gen_unfl(rng))
+        elif k < 0.8:
+            # non canonical but accepted: leading zeros, explicit plus, short / long mantissa
+            t = rng.choice(["", "+", "-", " "]) + "".join(rng.choice("0123456789") for _ in range(rng.randint(1, 7))) + rng.choice(["+", "-"]) + str(rng.randint(0, 12))
+        else:
+            t = "".join(rng.choice("0123456789+-. ") for _ in range(rng.randint(0, 8)))
+        texts.append(rng.choice(["", " ", "  "]) + t + rng.choice(["", " "]))
+    replies = core.Driver().run(["tle.float " + hx(t) for t in texts])
+    follow = []
+    for t, m in zip(texts, replies):
+        try:
+            v = _float(t)
+            real = "ok"
+        except Exception as e:  # noqa
+            v = None
+            real = real_error_token(e)
+        out.count(key=("float", t), kind="_float", verdict=real)
+        if v is None or not m.startswith("ok "):
+            if m.split(" ")[:2] != real.split(" ")[:2] if v is None else True:
+                out.fail("_float-verdict", "_float and the model disagree on acceptance", {"text": t}, observed=real if v is None else v, expected=m)
+            continue
+        want = dec_fraction(m[3:])
+        if v in (float("inf"), float("-inf")) or (v == 0 and want != 0) or abs(want) < Fraction(1, 10**300):
+            out.tally("_float-overflow-or-underflow-skipped")
+            continue
+        if not abs(Fraction(v) - want) <= abs(want) * Fraction(1, 10**13):
+            out.fail("_float-value", "_float differs from the model's decimal", {"text": t}, observed=v, expected=float(want))
+            continue
+        digits = str(int(m[3:].split(":")[1]))
+        if len(digits) > 5 and digits[5] == "5" and set(digits[6:]) <= {"0"}:
+            out.tally("_unfloat-exact-tie-skipped")     # the code rounds the binary neighbour of the decimal, the model the decimal itself
+            continue
+        follow.append((t, v, m[3:]))
+    reqs = ["tle.tounfl " + d.replace(":", " ") for _, _, d in follow]
+    for (t, v, d), m in zip(follow, core.Driver().run(reqs)):
+        real = _unfloat(v)
+        out.count(key=("unfloat", t), kind="_unfloat")
+        if "ok " + hx(real) != m:
+            out.fail("_unfloat", "_unfloat differs from the model", {"text": t, "value": v}, observed=real, expected=unhx(m[3:]) if m.startswith("ok ") else m)
+
+
+def k_from_string(out, rng, n):
+    from beyond.io.tle import Tle
+    texts = []
+    for _ in range(n):
+        recs = [gen_rec(rng) for _ in range(rng.randint(1, 5))]
+        lines = []
+        for r in recs:
+            l1, l2 = corrupt_entry(rng, *spec_lines(r), random_kind(rng))
+            if rng.random() < 0.2:
+                lines.append(rng.choice(["", "# comment", "   ", "#", " # indented", "0 NAME", "1", "2", "1 ", "2 "]))
+            if r["name"]:
+                lines.append(("0 " if rng.random() < 0.2 else "") + r["name"] + ("   " if rng.random() < 0.2 else ""))
+            k = rng.random()
+            if k < 0.85:
+                lines += [l1, l2]
+            elif k < 0.9:
+                lines += [l1]
+            elif k < 0.95:
+                lines += [l2]
+            else:
+                lines += [l2, l1]
+        texts.append(lines)
+    reqs = ["tle.fs " + " ".join(hx(l) for l in ls) for ls in texts]
+    for ls, m in zip(texts, core.Driver().run(reqs)):
+        got = []
+        ab = "done"
+        try:
+            for t in Tle.from_string("\n".join(ls), error="ignore"):
+                got.append(",".join(hx(x) for x in str(t).split("\n")))
+        except Exception as e:  # noqa
+            ab = real_error_token(e)
+        real = " ".join(got) + " | " + ab
+        out.count(key=("fs",) + tuple(ls), kind="from_string", yielded=len(got))
+        if real.strip() != m.strip():
+            out.fail("from_string", "Tle.from_string differs from the model", {"lines": ls}, observed=real, expected=m)
+
+
+def corruption_cases(rng, r, n_digit, n_len):
+    l1, l2 = spec_lines(r)
+    both = [l1, l2]
+    cases = [("valid", [l1, l2])]
+    if r["name"]:
+        cases.append(("valid-named", [r["name"], l1, l2]))
+        cases.append(("valid-named-0", ["0 " + r["name"] + "  ", l1, l2]))
+    for li in (0, 1):
+        allc = list(digit_corruptions(both[li]))
+        pick = allc if n_digit is None else rng.sample(allc, min(n_digit, len(allc)))
+        for p, d in pick:
+            ls = list(both)
+            ls[li] = corrupt_digit(both[li], p, d)
+            cases.append(("digit", ls))
+        for kn, bad in length_corruptions(rng, both[li], n_len):
+            ls = list(both)
+            ls[li] = bad
+            cases.append((kn, ls))
+        for bad in linenum_corruptions(both[li]):
+            ls = list(both)
+            ls[li] = bad
+            cases.append(("linenum", ls))
+        ls = list(both)
+        ls[li] = both[li] + rng.choice([" ", "   ", "\t"])
+        cases.append(("trail-blank", ls))
+        ls = list(both)
+        p = rng.randrange(2, 68)
+        ls[li] = both[li][:p] + rng.choice("abcxyz_*") + both[li][p + 1:]
+        cases.append(("bad-char", ls))
+    cases.append(("one-line", [l1]))
+    cases.append(("one-line", [l2]))
+    cases.append(("four-lines", ["A", "B", l1, l2]))
+    cases.append(("four-lines", [l1, l2, l1, l2]))
+    cases.append(("four-lines", [l1, l2, "junk", l2]))
+    cases.append(("swapped", [l2, l1]))
+    cases.append(("empty", []))
+    return cases
+
+
+def nonstandard_cases(rng, r):
+    """accepted texts outside the canonical layout: blank / plus-signed drag terms, other classification, ephemeris type, blanks in fields"""
+    l1, l2 = spec_lines(r)
+
+    def fix(l):
+        return l[:68] + str(spec_checksum(l))
+    out = []
+    for a, b, txt in ((44, 52, " 00000+0"), (44, 52, "+12345-3"), (44, 52, " 01234-3"), (53, 61, "        "), (53, 61, " 12345+0"), (53, 61, " 1234-10"),
+                      (7, 8, "C"), (7, 8, "S"), (62, 63, "2"), (64, 68, "    "), (64, 68, "0012"), (9, 17, " 8067A  "), (9, 17, "  067A  "), (33, 43, " 0.000218"[:10].ljust(10)),
+                      (33, 43, "+.00002182"), (20, 32, "000.50000000"), (20, 32, "367.25000000"), (20, 32, "400.00000000"), (18, 20, "  "), (2, 7, "    7"), (2, 7, "A1234")):
+        v = fix(l1[:a] + txt + l1[b:])
+        out.append(("nonstd-l1-%d" % a, [v, l2]))
+    for a, b, txt in ((8, 16, "360.0000"), (8, 16, "51.64160"), (8, 16, " 51.6416"[:8]), (26, 33, "-006703"), (26, 33, "      7"), (52, 63, "9.45290855 "[:11]), (63, 68, "     "), (63, 68, "00012"),
+                      (17, 25, "999.9999"), (43, 51, "  -1.5  "), (2, 7, "    7")):
+        v = fix(l2[:a] + txt + l2[b:])
+        out.append(("nonstd-l2-%d" % a, [l1, v]))
+    return out
+
+
+def correspondence(ctx):
+    out = Outcome()
+    rng = ctx.rng
+    recs = [gen_rec(rng) for _ in range(ctx.n(400, 6000))]
+    pool = []
+    for r in recs[: ctx.n(300, 3000)]:
+        pool += list(spec_lines(r))
+    k_checksum(out, rng, pool)
+    # parse: valid texts, every kind of corruption, structural variants
+    cases = []
+    for k, r in enumerate(recs[: ctx.n(60, 600)]):
+        full = k < ctx.n(3, 50)
+        cases += corruption_cases(rng, r, None if full else 30, 10)
+    for r in recs[: ctx.n(40, 400)]:
+        cases += nonstandard_cases(rng, r)
+    for r in recs:
+        cases.append(("valid", spec_text(r).split("\n")))
+    k_parse(out, cases)
+    # parse -> orbit -> write
+    k_rewrite(out, [("valid", spec_text(r)) for r in recs] + [(kind, "\n".join(ls)) for kind, ls in cases if kind.startswith("nonstd") or kind in ("lead-blank", "trail-blank")][: ctx.n(600, 6000)])
+    # write
+    wr = [(r, "grid") for r in recs]
+    for r in recs[: ctx.n(200, 3000)]:
+        w, k = widen_rec(rng, r)
+        wr.append((w, "wide-" + k))
+    k_write(out, wr)
+    k_floats(out, rng, ctx.n(1500, 30000))
+    k_from_string(out, rng, ctx.n(300, 5000))
     return out
